@@ -393,7 +393,8 @@ func (b *Binlog) RunPollLoop() error {
 				continue
 			} else if err != nil {
 				b.logger.Error("livesql: failed to parse rows event", "error", err)
-				continue
+				// We don't know what changed, so invalidate every query on the table.
+				u = &update{table: string(inner.Table.Table), err: err}
 			}
 
 			b.delayMu.Lock()
